@@ -14,6 +14,8 @@
 #include "nmtools/array/eval/simd/ufunc.hpp"
 #include "nmtools/array/array/ufuncs/add.hpp"
 #include "nmtools/array/array/ufuncs/multiply.hpp"
+#include "nmtools/array/array/matmul.hpp"
+#include "nmtools/array/eval/simd/evaluator/matmul.hpp"
 #include "nmtools/array/array/ufuncs/subtract.hpp"
 #include "nmtools/utility/unwrap.hpp"
 namespace simd = na::simd; using nm::None;
@@ -43,6 +45,22 @@ void ob_c12b_reduce3(const iarr<E0,E1,E2>& a)
         }); });
     }
 }
+// keepdims = None means False (NumPy's default), for the SIMD evaluator as for the view
+template <size_t E0, size_t E1, int AX>
+void ob_c12b_reduce_keepdims_none(const iarr<E0,E1>& a)
+{
+    PINSHAPE(a, E0, E1);
+    constexpr size_t ax = (size_t)(AX < 0 ? AX + 2 : AX); constexpr size_t o0 = ax == 0 ? E1 : E0;
+    auto r = na::add.reduce(a, AX, None, None, None, C12_CTX);
+    auto shp = nm::shape(r);
+    OBLIGE("C12.eval.reduce.keepdims_none_shape", (size_t)nm::len(shp) == 1 && (size_t)nm::at(shp,0) == o0, E0*100+E1, AX+10);
+    if ((size_t)nm::len(shp) == 1 && (size_t)nm::at(shp,0) == o0)
+        for_<o0>([&](auto I){
+            unsigned want = 0; for_<(ax == 0 ? E0 : E1)>([&](auto T){ want += (unsigned)(ax == 0 ? a(T.value, I.value) : a(I.value, T.value)); });
+            OBLIGE("C12.eval.reduce.keepdims_none_element", (unsigned)r(I.value) == want, E0*100+E1, AX+10, I.value);
+        });
+}
+template void ob_c12b_reduce_keepdims_none<2,5,0>(const iarr<2,5>&); template void ob_c12b_reduce_keepdims_none<2,4,-1>(const iarr<2,4>&); template void ob_c12b_reduce_keepdims_none<3,2,0>(const iarr<3,2>&);
 // reduce over axis AX of a 2-d array
 template <size_t E0, size_t E1, int AX, bool MUL>
 void ob_c12b_reduce2(const iarr<E0,E1>& a)
@@ -106,6 +124,25 @@ R3(2,2,6,2,false) R3(2,5,2,1,true) R3(3,1,4,0,false) R3(1,1,5,2,false) R3(2,2,2,
 RA(2,9,true,false) RA(3,5,false,true) RA(1,17,false,false)
 RK(2,9,1) RK(5,2,-2)
 #endif
+// ---- matmul (lhs (M,K) row-major, rhs (K,P) stored column-major as the SIMD evaluator requires): out(i,j) = sum_t lhs(i,t) * rhs(t,j)
+template <size_t K, size_t P> using cmarr = na::ndarray_t<std::array<int,K*P>, std::array<size_t,2>, na::resolve_stride_type_t, na::column_major_offset_t>;
+template <size_t M, size_t K, size_t P>
+void ob_c12b_matmul(const iarr<M,K>& a, const cmarr<K,P>& b, const iarr<M,P>& out_)
+{
+    auto out = out_;
+    PINSHAPE(a, M, K); PINSHAPE(out, M, P);
+    ASSUME(b.shape_[0] == K); ASSUME(b.shape_[1] == P); ASSUME(b.strides_[0] == 1); ASSUME(b.strides_[1] == K);
+    ASSUME(b.offset_.shape_[0] == K); ASSUME(b.offset_.shape_[1] == P); ASSUME(b.offset_.strides_[0] == 1); ASSUME(b.offset_.strides_[1] == K);
+    auto ok = na::matmul(a, b, C12_CTX, out);
+    OBLIGE("C12.eval.has_value", nm::has_value(ok), M*100+K*10+P);
+    for_<M>([&](auto I){ for_<P>([&](auto J){
+        unsigned want = 0; for_<K>([&](auto T){ want += (unsigned)a(I.value, T.value) * (unsigned)b(T.value, J.value); });
+        OBLIGE("C12.eval.matmul.element_is_the_sum_of_products", (unsigned)out(I.value, J.value) == want, M*100+K*10+P, I.value*10+J.value);
+    }); });
+}
+template void ob_c12b_matmul<2,3,2>(const iarr<2,3>&, const cmarr<3,2>&, const iarr<2,2>&);
+template void ob_c12b_matmul<1,5,2>(const iarr<1,5>&, const cmarr<5,2>&, const iarr<1,2>&);
+template void ob_c12b_matmul<2,4,1>(const iarr<2,4>&, const cmarr<4,1>&, const iarr<2,1>&);
 void ob_c12b_negctl(const iarr<2,5>& a)
 {
     PINSHAPE(a, 2, 5);
